@@ -7,6 +7,7 @@
 // the model `spawn` only registers the task, the harness decides when it runs (`model_tasks::run_next`) and then
 // delivers the tick the way `aggregate_loop` does (tick received -> `send_current_state`). The event sequence and
 // the firing pattern are concrete per harness (generated menu), the values are chosen by the solver.
+#[cfg(kani)]
 use tokio::model_tasks;
 
 const SA: u8 = 0; // set a
@@ -36,11 +37,18 @@ fn drain(rx: &mut Receiver<ServerMessage>, out: &mut Flat, tid: u64) {
                     PStateEvent::Deleted(k) => (true, k),
                 };
                 assert!(kvs.len() >= 1, "C16: no empty batch is sent");
+                // (a batch read back from the model queue is a heap value CBMC does not fold: bounded, byte-wise
+                // inspection instead of `==` on strings, whose memcmp would run to its unwind bound each time)
+                assert!(kvs.len() <= 2, "C16: a batch holds each key at most once (two keys exist)");
                 let mut i = 0;
-                while i < kvs.len() {
-                    assert!(out.n < 8, "C16: nothing is duplicated (more items than events)");
-                    out.items[out.n] = (del, kvs[i].key == "a", kvs[i].value.as_bool() == Some(true));
-                    out.n += 1;
+                while i < 2 {
+                    if i < kvs.len() {
+                        assert!(out.n < 8, "C16: nothing is duplicated (more items than events)");
+                        let kb = kvs[i].key.as_bytes();
+                        assert!(kb.len() == 1 && (kb[0] == b'a' || kb[0] == b'b'), "C16: only keys that were aggregated are delivered");
+                        out.items[out.n] = (del, kb[0] == b'a', kvs[i].value.as_bool() == Some(true));
+                        out.n += 1;
+                    }
                     i += 1;
                 }
                 core::mem::forget(kvs);
@@ -51,7 +59,34 @@ fn drain(rx: &mut Receiver<ServerMessage>, out: &mut Flat, tid: u64) {
     }
 }
 
+/// per key: the delivered sequence equals the produced sequence (nothing lost, duplicated, reordered; set and
+/// deleted never cross)
+fn c16_check(seq: [u8; 3], vals: [bool; 3], got: &Flat) {
+    assert!(got.n == 3, "C16: exactly as many items delivered as events aggregated");
+    let mut key_a = 0;
+    while key_a < 2 {
+        let want_a = key_a == 0;
+        let mut gi = 0;
+        let mut ii = 0;
+        while ii < 3 {
+            let in_is_a = seq[ii] == SA || seq[ii] == DA;
+            if in_is_a == want_a {
+                // next delivered item of this key
+                while gi < got.n && got.items[gi].1 != want_a {
+                    gi += 1;
+                }
+                assert!(gi < got.n, "C16: an event of this key is missing");
+                let in_del = seq[ii] == DA || seq[ii] == DB;
+                assert!(got.items[gi].0 == in_del && got.items[gi].2 == vals[ii], "C16: per key, events arrive in the order and with the kind and value they were produced");
+                gi += 1;
+            }
+            ii += 1;
+        }
+        key_a += 1;
+    }
+}
 /// `fire[i]`: the timer task (if one is registered) runs after event i and its tick is delivered.
+#[cfg(kani)]
 fn c16_run(seq: [u8; 3], fire: [bool; 3]) {
     let (client_tx, mut client_rx) = channel::<ServerMessage>(4);
     let tid: u64 = kani::any();
@@ -75,8 +110,10 @@ fn c16_run(seq: [u8; 3], fire: [bool; 3]) {
         // invariant: whenever something is buffered, a flush is scheduled and its timer task is still pending
         // or its tick is already queued ("no event waits longer than the interval")
         if !st.set_buffer.is_empty() || !st.deleted_buffer.is_empty() {
-            assert!(st.send_is_scheduled, "C16: a buffered event always has a flush scheduled");
-            assert!(model_tasks::pending() >= 1 || trigger_rx.len() >= 1, "C16: ... and the timer behind it is really outstanding");
+            // (`send_is_scheduled` itself may be false here: a flush forced by a repeated key clears the flag
+            // while the timer that was armed for the flushed batch is still outstanding - that older timer is
+            // what bounds the waiting time of the re-buffered event)
+            assert!(model_tasks::pending() >= 1 || trigger_rx.len() >= 1, "C16: a buffered event always has an armed timer (or its tick) outstanding: it cannot wait longer than the interval");
         }
         drain(&mut client_rx, &mut got, tid);
         if fire[i] {
@@ -103,32 +140,89 @@ fn c16_run(seq: [u8; 3], fire: [bool; 3]) {
     }
     drain(&mut client_rx, &mut got, tid);
     assert!(st.set_buffer.is_empty() && st.deleted_buffer.is_empty(), "C16: after the last timer nothing stays buffered");
-    // per key: the delivered sequence equals the input sequence (nothing lost, duplicated, reordered; set and
-    // deleted never cross)
-    assert!(got.n == 3, "C16: exactly as many items delivered as events aggregated");
-    let mut key_a = 0;
-    while key_a < 2 {
-        let want_a = key_a == 0;
-        let mut gi = 0;
-        let mut ii = 0;
-        while ii < 3 {
-            let in_is_a = seq[ii] == SA || seq[ii] == DA;
-            if in_is_a == want_a {
-                // next delivered item of this key
-                while gi < got.n && got.items[gi].1 != want_a {
-                    gi += 1;
-                }
-                assert!(gi < got.n, "C16: an event of this key is missing");
-                let in_del = seq[ii] == DA || seq[ii] == DB;
-                assert!(got.items[gi].0 == in_del && got.items[gi].2 == vals[ii], "C16: per key, events arrive in the order and with the kind and value they were produced");
-                gi += 1;
-            }
-            ii += 1;
-        }
-        key_a += 1;
-    }
+    c16_check(seq, vals, &got);
     kani::cover!(true);
     core::mem::forget(st);
+}
+/// The REAL `aggregate_loop` (its `select!` over event queue and timer ticks) run to quiescence: the events are
+/// queued up front, the model `select!` lets the oldest timer fire whenever nothing else is ready, and reports the
+/// event queue closed once nothing is left to happen. `reversed`: ticks win over queued events.
+#[cfg(kani)]
+fn c16_loop(seq: [u8; 3], reversed: bool) {
+    let (client_tx, mut client_rx) = channel::<ServerMessage>(4);
+    let tid: u64 = kani::any();
+    let st = PStateAggregatorState {
+        aggregate_duration: Duration::from_millis(10),
+        transaction_id: tid,
+        request_pattern: s("#"),
+        set_buffer: Map::new(),
+        deleted_buffer: Map::new(),
+        client_sub: client_tx,
+        send_is_scheduled: false,
+    };
+    let vals: [bool; 3] = [kani::any(), kani::any(), kani::any()];
+    let (agg_tx, mut agg_rx) = channel::<PStateEvent>(4);
+    let mut i = 0;
+    while i < 3 {
+        let r = agg_tx.try_send(ev(seq[i], vals[i]));
+        core::mem::forget(r);
+        i += 1;
+    }
+    agg_rx.model_close_when_idle();
+    tokio::model_select_reversed(reversed);
+    aw!(st.aggregate_loop(agg_rx, cid(1)));
+    let mut got = Flat { n: 0, items: [(false, false, false); 8] };
+    drain(&mut client_rx, &mut got, tid);
+    assert!(got.n == 3, "C16: every aggregated event is delivered once the timers have fired (no event waits for ever)");
+    c16_check(seq, vals, &got);
+    kani::cover!(true);
+}
+/// native replay of every C16 harness: the real aggregate_loop on a real runtime with a 20 ms interval - events
+/// back to back, then silence of several intervals, then the same content checks
+#[cfg(not(kani))]
+fn c16_native(seq: [u8; 3]) {
+    let tid: u64 = kani::any();
+    let vals: [bool; 3] = [kani::any(), kani::any(), kani::any()];
+    let mut got = Flat { n: 0, items: [(false, false, false); 8] };
+    crate::vreplay_support::rt_block_on(async {
+        let (client_tx, mut client_rx) = channel::<ServerMessage>(8);
+        let st = PStateAggregatorState {
+            aggregate_duration: Duration::from_millis(20),
+            transaction_id: tid,
+            request_pattern: s("#"),
+            set_buffer: Map::new(),
+            deleted_buffer: Map::new(),
+            client_sub: client_tx,
+            send_is_scheduled: false,
+        };
+        let (agg_tx, agg_rx) = channel::<PStateEvent>(8);
+        let h = spawn(st.aggregate_loop(agg_rx, cid(1)));
+        let mut i = 0;
+        while i < 3 {
+            agg_tx.send(ev(seq[i], vals[i])).await.expect("loop alive");
+            i += 1;
+        }
+        tokio::time::sleep(Duration::from_millis(200)).await;
+        drain(&mut client_rx, &mut got, tid);
+        h.abort();
+    });
+    assert!(got.n == 3, "C16: every aggregated event is delivered once the timers have fired (no event waits for ever)");
+    c16_check(seq, vals, &got);
+}
+macro_rules! c16l {
+    ($name:ident, $seq:expr, $rev:expr) => {
+        #[kani::proof]
+        #[kani::unwind(10)]
+        #[kani::stub(std::mem::MaybeUninit::write, stub_mu_write)]
+        #[kani::stub(std::fmt::format, stub_format)]
+        #[kani::stub(miette::eyreish::capture_handler, stub_capture_handler)]
+        fn $name() {
+            #[cfg(kani)]
+            c16_loop($seq, $rev);
+            #[cfg(not(kani))]
+            c16_native($seq);
+        }
+    };
 }
 macro_rules! c16h {
     ($name:ident, $seq:expr, $fire:expr) => {
@@ -138,7 +232,10 @@ macro_rules! c16h {
         #[kani::stub(std::fmt::format, stub_format)]
         #[kani::stub(miette::eyreish::capture_handler, stub_capture_handler)]
         fn $name() {
-            c16_run($seq, $fire)
+            #[cfg(kani)]
+            c16_run($seq, $fire);
+            #[cfg(not(kani))]
+            c16_native($seq);
         }
     };
 }
@@ -154,3 +251,13 @@ c16h!(c16_da_sa_db_fireall, [DA, SA, DB], [true, true, true]);
 c16h!(c16_sa_sb_sa_nofire, [SA, SB, SA], [false, false, false]);
 // @h props=C16,C17 tier=thorough cap=900 desc="aggregate deleted a, deleted b, set b with a stale timer firing on empty buffers" bounds="3 events"
 c16h!(c16_da_db_sb_fire2, [DA, DB, SB], [false, false, true]);
+
+// ------------------------------------------------------------------ the real aggregate_loop
+// @h props=C16,C17 tier=quick cap=1200 desc="real aggregate_loop: set a, set a, then silence - the re-buffered event is flushed by the timer armed for the first batch" bounds="3 events queued; timers fire when idle; events win over ticks"
+c16l!(c16_loop_sa_sa_sb, [SA, SA, SB], false);
+// @h props=C16,C17 tier=quick cap=1200 desc="real aggregate_loop: deleted a, set a, set b (delete and set of one key in one window keep their order)" bounds="3 events queued; timers fire when idle; events win over ticks"
+c16l!(c16_loop_da_sa_sb, [DA, SA, SB], false);
+// @h props=C16,C17 tier=quick cap=1200 desc="real aggregate_loop: set a, deleted a, set a with ticks winning over queued events" bounds="3 events queued; timers fire when idle; ticks win over events"
+c16l!(c16_loop_sa_da_sa_rev, [SA, DA, SA], true);
+// @h props=C16,C17 tier=thorough cap=1200 desc="real aggregate_loop: set a, set b, deleted b" bounds="3 events queued"
+c16l!(c16_loop_sa_sb_db, [SA, SB, DB], false);
